@@ -169,8 +169,17 @@ def arrange : List Key → List Key → List Key
 def gwsWithoutDeps (cfg : Cfg) (s : State) : List Key :=
   (s.gws.filter (fun p => p.2 == cfg.gcName && !hasKey s.prov p.1)).map (·.1)
 
-/-- second loop: entries of `provisions` whose Gateway is not in the store -/
-def removedGwsWithDeps (s : State) : List Key :=
+/-- a removal scan: which entries of `provisions` the second loop collects -/
+abbrev Removal := Cfg → State → List Key
+
+/-- second loop (current code, commit bb91ad6): entries of `provisions` whose Gateway is not in the
+store or no longer names the configured class -/
+def removedGwsWithDeps : Removal := fun cfg s =>
+  (s.prov.filter (fun p => get? s.gws p.1 != some cfg.gcName)).map (·.1)
+
+/-- second loop as it was BEFORE bb91ad6 (regression detector, finding
+C18:deployment-kept-after-class-change): only entries whose Gateway is not in the store -/
+def removedPreFix : Removal := fun _ s =>
   (s.prov.filter (fun p => !hasKey s.gws p.1)).map (·.1)
 
 /-- body of the "create new deployments" loop -/
@@ -191,39 +200,29 @@ def deleteOne (s : State) (k : Key) : State :=
       { s with cluster := s.cluster.filter (fun e => e.name != d.name), prov := erase s.prov k }
     else { s with crashed := some .deleteFailed }
 
-def ensure (cfg : Cfg) (s : State) (order : List Key) : State :=
+def ensureWith (rem : Removal) (cfg : Cfg) (s : State) (order : List Key) : State :=
   let without := arrange order (gwsWithoutDeps cfg s)
-  let removed := removedGwsWithDeps s
+  let removed := rem cfg s
   removed.foldl deleteOne (without.foldl (createOne cfg) s)
 
 /-- `HandleEventBatch`: store.update, setGatewayClassStatuses, ensureDeploymentsMatchGateways. -/
-def step (cfg : Cfg) (s : State) (b : List Ev) (order : List Key) : State :=
+def stepWith (rem : Removal) (cfg : Cfg) (s : State) (b : List Ev) (order : List Key) : State :=
   if s.crashed.isSome then s else
   let s1 := setStatuses cfg (storeUpdate s b)
-  if s1.crashed.isSome then s1 else ensure cfg s1 order
+  if s1.crashed.isSome then s1 else ensureWith rem cfg s1 order
 
-def run (cfg : Cfg) (s : State) : List (List Ev × List Key) → State
+def runWith (rem : Removal) (cfg : Cfg) (s : State) : List (List Ev × List Key) → State
   | [] => s
-  | (b, o) :: rest => run cfg (step cfg s b o) rest
+  | (b, o) :: rest => runWith rem cfg (stepWith rem cfg s b o) rest
 
-/-! ### repaired variant (known finding C18:deployment-kept-after-class-change)
-The removal loop also drops the entries whose Gateway no longer names the configured class. -/
+/-- the code in the tree -/
+abbrev ensure := ensureWith removedGwsWithDeps
+abbrev step := stepWith removedGwsWithDeps
+abbrev run := runWith removedGwsWithDeps
 
-def removedFixed (cfg : Cfg) (s : State) : List Key :=
-  (s.prov.filter (fun p => get? s.gws p.1 != some cfg.gcName)).map (·.1)
-
-def ensureFixed (cfg : Cfg) (s : State) (order : List Key) : State :=
-  let without := arrange order (gwsWithoutDeps cfg s)
-  let removed := removedFixed cfg s
-  removed.foldl deleteOne (without.foldl (createOne cfg) s)
-
-def stepFixed (cfg : Cfg) (s : State) (b : List Ev) (order : List Key) : State :=
-  if s.crashed.isSome then s else
-  let s1 := setStatuses cfg (storeUpdate s b)
-  if s1.crashed.isSome then s1 else ensureFixed cfg s1 order
-
-def runFixed (cfg : Cfg) (s : State) : List (List Ev × List Key) → State
-  | [] => s
-  | (b, o) :: rest => runFixed cfg (stepFixed cfg s b o) rest
+/-- the code before bb91ad6; a tree that behaves like this is reported as
+C18:deployment-kept-after-class-change -/
+abbrev stepPreFix := stepWith removedPreFix
+abbrev runPreFix := runWith removedPreFix
 
 end NGF.Prov
